@@ -96,6 +96,8 @@ def arr_eq(a, b, exact=True):
 
 def blocks_match_chunks(r):
     """Every computed block has exactly the shape `.chunks` declares. Returns None or a description."""
+    if r.ndim == 0:
+        return None
     for idx in itertools.product(*[range(len(c)) for c in r.chunks]):
         try:
             b = r.blocks[idx].compute(scheduler="sync")
